@@ -121,6 +121,10 @@ def const_family(mode: str, version: int, seed: int, thorough: bool = False):
     out.append(mk(mode, version, "bytes:addr-method",
                   [("Addr", ADDR1), ("Addr", ADDR2), ("Addr", ADDR1), msel[0], msel[1], msel[0],
                    ("Bytes", bytes(32)), ("Addr", ADDR2), ("BytesBase", "base16", "fe6baa64"), ("BytesBase", "base16", "fe6baa64")]))
+    # signature texts that differ only in spacing / letter case / non-ASCII letters are DIFFERENT selectors
+    msel2 = [("MethodSig", "add(uint64, uint64)uint64"), ("MethodSig", "add(uint64,uint64)uint64"), ("MethodSig", "Add(uint64,uint64)uint64"),
+             ("MethodSig", "gr\u00f6\u00dfe(uint64)void"), ("MethodSig", "groesse(uint64)void")]
+    out.append(mk(mode, version, "bytes:method-texts", msel2 + [msel2[0], msel2[1], msel2[3], msel2[0]]))
     out.append(mk(mode, version, "bytes:tmpl",
                   [("TmplBytes", "TMPL_BX"), ("TmplBytes", "TMPL_BX"), ("TmplBytes", "TMPL_BY"), ("TmplAddr", "TMPL_ADDR1"), ("TmplAddr", "TMPL_ADDR1"),
                    ("TmplAddr", "TMPL_ADDR2"), ("Bytes", b"z"), ("Bytes", b"z")]))
